@@ -50,8 +50,9 @@ sh('git -C /repo worktree remove --force ' + WT, cwd='/')
 if ok_suite and demo_fails and demo_passes:
     dst = '/verif/seeded/' + sid
     os.makedirs(dst, exist_ok=True)
-    shutil.copy(d + '/patch.diff', dst + '/patch.diff')
-    shutil.copy(d + '/demo.rs', dst + '/demo.rs')
+    if os.path.abspath(d) != os.path.abspath(dst):
+        shutil.copy(d + '/patch.diff', dst + '/patch.diff')
+        shutil.copy(d + '/demo.rs', dst + '/demo.rs')
     meta = json.load(open(d + '/meta.json')) if os.path.exists(d + '/meta.json') else {}
     meta.update({'property': prop, 'confirmed': ran, 'check_results': res,
                  'detected_by': [c for c in res if res[c]['exit'] == 1]})
